@@ -1,4 +1,5 @@
 import Driver.Util
+import Driver.Object
 
 /- Driver ops for history / feed (C18), collection paging (C10) and the splicer (C11). -/
 open Lean Drv
@@ -80,5 +81,180 @@ def feedOp (j : Json) : Except String Res := do
     f := Feed.step f op
     obs := obs.push (feedObserve f window)
   pure { model := Json.arr obs, nontrivial := seq.size ≥ 2 }
+
+end Ops
+
+/-! ### C10: paging -/
+namespace Ops
+
+def collKinds : List Str := ["Collection".toList, "OrderedCollection".toList, "CollectionPage".toList, "OrderedCollectionPage".toList]
+
+/-- `NewCollectionFromObject` on a decoded object. -/
+def pageOfObj (kvs : List (Str × JVal)) : Option (Coll.Page JVal JVal) :=
+  match Obj.getString kvs "type".toList with
+  | .error _ => none
+  | .ok kind =>
+    if !collKinds.contains kind then none
+    else
+      let unordered := kind = "Collection".toList || kind = "CollectionPage".toList
+      let root := kind = "Collection".toList || kind = "OrderedCollection".toList
+      let elems : Coll.Elems JVal :=
+        match Obj.getList kvs (if unordered then "items".toList else "orderedItems".toList) with
+        | .ok xs => .ok xs
+        | .error .absent => .absent
+        | .error .wrong => .err
+      let next : Coll.Next JVal :=
+        match Obj.getAny kvs (if root then "first".toList else "next".toList) with
+        | .ok v => .ref v
+        | .error .absent => .absent
+        | .error .wrong => .err
+      some ⟨elems, next⟩
+
+/-- `NewCollection(c.next, …)` in a world without reachable servers: only an embedded object
+    without an `id` can be used as is (`FetchUnknown` would re-fetch anything carrying an id). -/
+def loadOffline (r : JVal) : Option (Coll.Page JVal JVal) :=
+  match r with
+  | .obj kvs =>
+    match Obj.getAny kvs "id".toList with
+    | .error .absent => pageOfObj kvs
+    | _ => none
+  | _ => none
+
+def tagJson (o : Coll.Out JVal) : Json :=
+  match o with
+  | .item (.str s) => js s
+  | .item _ => Json.str "<other>"
+  | .refuse => Json.mkObj [("fail", "refuse")]
+  | _ => Json.mkObj [("fail", "error")]
+
+def implTags (impl : Json) : List Json :=
+  match impl with
+  | Json.arr rounds => (rounds.toList.map fun rd => match rd with
+      | Json.arr parts => match parts[0]? with
+        | some (Json.arr tags) => tags.toList
+        | _ => []
+      | _ => []).flatten
+  | _ => []
+
+def pagingOp (j : Json) : Except String Res := do
+  let impl := (j.getObjVal? "impl").toOption.getD Json.null
+  if let .ok _ := impl.getObjVal? "baddoc" then return { model := impl, nontrivial := false }
+  let doc ← toJVal (← j.getObjVal? "tree")
+  let kvs ← match doc with
+    | .obj kvs => pure kvs
+    | _ => throw "root is not an object"
+  let start ← nat j "start"
+  let reqs ← arr j "requests"
+  match pageOfObj kvs with
+  | none => pure { model := Json.mkObj [("notcollection", true)], nontrivial := false }
+  | some root =>
+    let mut cur : Coll.Page JVal JVal := root
+    let mut off := start
+    let mut out : Array Json := #[]
+    let mut delivered : List (Coll.Out JVal) := []
+    let mut pagesSeen := 0
+    let mut ended := false
+    for q in reqs do
+      if ended then break
+      let n ← q.getNat?
+      let r := Coll.harvest loadOffline cur n off
+      delivered := delivered ++ r.out
+      pagesSeen := pagesSeen + r.pages
+      match r.cont with
+      | none =>
+        out := out.push (Json.arr #[Json.arr (r.out.map tagJson).toArray, true, Json.num (0 : Nat)])
+        ended := true
+      | some (p, o) =>
+        out := out.push (Json.arr #[Json.arr (r.out.map tagJson).toArray, false, Json.num o])
+        cur := p
+        off := o
+    -- predicates on the implementation's output
+    let truth := (Coll.flat loadOffline 2000 root start).map fun e => tagJson (.item e)
+    let it := implTags impl
+    let isFail (t : Json) : Bool := match t with | Json.obj _ => true | _ => false
+    let items := it.filter (fun t => !isFail t)
+    let fails := it.filter isFail
+    let prefixOk := items.isPrefixOf truth && fails.length ≤ 1 &&
+      (fails.isEmpty || (it.getLast?.map isFail).getD false)
+    -- a refusal needs more than `threshold` consecutive empty pages somewhere in the chain
+    let ch := Coll.chain loadOffline 2000 root
+    let emptyFlags := ch.map fun p => p.items.isEmpty
+    let rec hasRun : List Bool → Nat → Bool
+      | [], _ => false
+      | b :: bs, k => if b then (k + 1 > Coll.threshold) || hasRun bs (k + 1) else hasRun bs 0
+    let refused := it.any fun t => t == Json.mkObj [("fail", "refuse")]
+    let refusalOk := !refused || hasRun emptyFlags 0
+    -- an empty continuation without an error item means everything was delivered
+    let lastRound : Option Json := match impl with | Json.arr r => r.toList.getLast? | _ => none
+    let endedClean := (match lastRound with
+      | some (Json.arr parts) => parts[1]? == some (Json.bool true)
+      | _ => false) && fails.isEmpty
+    let completeOk := !endedClean || items == truth
+    pure { model := Json.arr out,
+           preds := [("delivered_is_prefix_of_true_sequence", prefixOk),
+                     ("refusal_only_after_consecutive_empties", refusalOk),
+                     ("clean_end_means_complete", completeOk)],
+           nontrivial := pagesSeen ≥ 3 }
+
+/-! ### C11: splicer -/
+
+structure FItem where
+  label : Str
+  ts : Int
+  deriving Repr
+
+def spliceOp (j : Json) : Except String Res := do
+  let srcs ← arr j "sources"
+  let nilEmpty ← nat j "nilempty"
+  let sources : List (Splicer.Source (List FItem) FItem) ← srcs.toList.mapM fun s => do
+    let its ← s.getArr?
+    let items ← its.toList.mapM fun it => do
+      let p ← it.getArr?
+      let l ← (p[0]?.getD Json.null).getStr?
+      -- a missing timestamp is Go's zero time, earlier than everything generated
+      let t : Int := match p[1]? with
+        | some (Json.num n) => n.mantissa
+        | _ => -100000000000
+      pure (⟨l.toList, t⟩ : FItem)
+    pure { basepoint := 0,
+           page := if items.isEmpty && nilEmpty == 1 then none else some items,
+           elements := [] }
+  -- the synthetic container of the harness: delivers exactly what is asked
+  let hv : Splicer.Hv (List FItem) FItem := fun items q st =>
+    if st ≥ items.length then ([], none, 0)
+    else if st + q ≥ items.length then (items.drop st, none, 0)
+    else ((items.drop st).take q, some items, st + q)
+  let script ← arr j "script"
+  let mut cur := sources
+  let mut out : Array Json := #[]
+  let mut ended := false
+  let mut total := 0
+  for stp in script do
+    if ended then break
+    let p ← stp.getArr?
+    let kind ← (p[0]?.getD Json.null).getStr?
+    let q ← (p[1]?.getD Json.null).getNat?
+    let st ← (p[2]?.getD Json.null).getNat?
+    let r := Splicer.harvest hv (fun (i : FItem) => i.ts) cur q st
+    total := total + r.1.length
+    out := out.push (Json.arr #[Json.arr (r.1.map fun i => js i.label).toArray, Json.bool r.2.isNone])
+    if kind == "h" then
+      match r.2 with
+      | none => ended := true
+      | some s' => cur := s'
+  -- predicates on the implementation's output: fewer items than asked only with an empty
+  -- continuation; no item twice within the rounds that advance the feed
+  let impl := (j.getObjVal? "impl").toOption.getD Json.null
+  let rounds : List Json := match impl with | Json.arr r => r.toList | _ => []
+  let qs : List Nat := script.toList.map fun stp => match stp with
+    | Json.arr p => ((p[1]?.getD Json.null).getNat?).toOption.getD 0
+    | _ => 0
+  let shortOk := (rounds.zip qs).all fun (rd, q) => match rd with
+    | Json.arr parts => match parts[0]?, parts[1]? with
+      | some (Json.arr tags), some (Json.bool nil) => tags.size ≥ q || nil
+      | _, _ => false
+    | _ => false
+  pure { model := Json.arr out, preds := [("short_delivery_ends_feed", shortOk)],
+         nontrivial := total ≥ 3 && sources.length ≥ 2 }
 
 end Ops
